@@ -355,5 +355,5 @@ def worker_result(prop, ctx, info, wall):
         "words": sorted(ctx.words), "counters": dict(ctx.counters), "violations": ctx.violations,
         "samples": ctx.samples, "inconclusive": ctx.inconclusive, "truncated": info.get("truncated", False),
         "contracts": monitors.evaluation_counts(), "stdout_suppressed": env.SINK.n, "wall_s": wall,
-        "emu_stats": monitors.emu_stats(), "arms": monitors.arm_report(),
+        "emu_stats": monitors.emu_stats(), "arms": monitors.arm_report(), "progress": monitors.progress_report(),
     }
